@@ -47,6 +47,7 @@ func (g *Gen) schedule(c *Config, interval int64) {
 	c.PCTDepth = g.Range(1, 4)
 	c.PCTHorizon = pick(g, 50, 150, 400)
 	c.PAdvance = pick(g, 0, 0, 2, 10, 40)
+	c.PStall = pick(g, 0, 0, 0, 3, 10, 30)
 	if interval > 0 {
 		c.Quanta = []int64{interval / 4, interval / 2, interval, 2 * interval}
 	} else {
